@@ -152,6 +152,36 @@ func (e *fxEstimator) BadH2Update(a, b int) {
 	}
 }
 
+// setRateH2 is the helper form: it clamps, stores and tells the pacer.
+func (e *fxEstimator) setRateH2(r int) bool {
+	r = clampFx(r, e.min, e.max)
+	if r == e.rate {
+		return false
+	}
+	e.rate = r
+	e.pacer.SetRate(r)
+	return true
+}
+
+// GoodH2Remote tells the callback what the helper published.
+func (e *fxEstimator) GoodH2Remote(a, b int) {
+	e.mu.Lock()
+	defer e.mu.Unlock()
+	if e.setRateH2(min(a, b)) && e.onChange != nil {
+		e.onChange(e.rate)
+	}
+}
+
+// BadH2Remote tells the callback the value from before the helper's clamp.
+func (e *fxEstimator) BadH2Remote(a, b int) {
+	e.mu.Lock()
+	defer e.mu.Unlock()
+	r := min(a, b)
+	if e.setRateH2(r) && e.onChange != nil {
+		e.onChange(r)
+	}
+}
+
 type fxGate struct {
 	closeLock sync.RWMutex
 	done      chan struct{}
